@@ -53,7 +53,7 @@ def U(universe, oracle, bounds, ref, level="exploration", tech=None):
     return (level, tech, universe + " Oracle: " + oracle, bounds, ref)
 
 CHECKS.update({
- "C29": U("(a) 398 (quick) / 2,328 (thorough) generated programs whose token stream and statement boundaries are known from the generator's structured printer: EVERY single layout change (one of 12 block comments in every gap between two tokens (texts with stars, slashes, quotes, backslashes), one of 8 line comments at every line end (incl. trailing backslashes, `/*`, quotes), every statement separator as `;` (`,` between match arms), a blank line at every statement boundary; all pairs of changes on short programs in thorough); (b) the 12 (quick) / 60 (thorough) shortest repository corpus programs with a block comment before every token and a line comment at every line end;",
+ "C29": U("(a) 398 (quick) / 2,328 (thorough) generated programs whose token stream and statement boundaries are known from the generator's structured printer: EVERY single layout change (one of 12 block comments in every gap between two tokens (texts with stars, slashes, quotes, backslashes), one of 8 line comments at every line end (incl. trailing backslashes, `/*`, quotes), every statement separator as `;` (`,` between match arms), a blank line at every statement boundary, the body brace of a fn / while / for / if / match header moved to the next line / below a blank line / below a comment line; all pairs of changes on short programs in thorough); (b) the 12 (quick) / 60 (thorough) shortest repository corpus programs with a block comment before every token and a line comment at every line end;",
           "the compile verdict and the run observation (emits, output, end kind) equal those of the unchanged program.",
           "Deviation 1 (pairs only on short programs); comments containing a newline, and `,`/newline flips of list separators, are not generated; error line numbers are not compared.", "DESIGN.md §3 C29"),
  "C01": U("the shared program universe U-prog (typed generator: expression trees with tracing calls, statement lists with loops/break/continue/return, functions/recursion/lambdas, data with aliasing and void components, matches incl. arms that shadow an enclosing name, depth-2 string-operation expressions over prefix-related operands; 24 k programs quick / 270 k thorough) plus the strata S-empty (operations on empty/singleton arrays), S-task (tasks capturing every kind of value), S-jump (break/continue/return/? in every operand position) and S-voidvariant, each program under EVERY uniform budget in {1,2,3,7,64,MAX};",
@@ -71,7 +71,7 @@ CHECKS.update({
           "Same bounds as C01/C02; S-jump known finding applies.", "DESIGN.md §3 C05", "translation_validation",
           "translation validation over an exhaustively enumerated program universe and operand grid: optimized vs unoptimized bytecode and literal vs variable operand forms must be observationally equal"),
  "C33": U("1,849 (quick) / ~16 k (thorough) erroneous programs obtained by every applicable single error mutation (undefined name, wrong-typed literal, deleted arm, assignment to let, dropped/added/unknown-named argument, unknown field, deleted token, bad escape) of corpus programs x up to 10 variants placing non-ASCII text before the site (earlier lines, same line, inside the same string literal before the site, and as the escaped character itself);",
-          "every diagnostic's primary range lies within the file, on UTF-8 character boundaries, covers the same characters as in the ASCII twin of the text (differential, no hand-written expectations), is bracket-balanced when it spans several tokens of a syntactically well-formed text (a construct never cuts through a bracket pair; plus a generated family of erroneous expressions with parenthesised operands), and intersects the mutated site where that is unambiguous.",
+          "every diagnostic's primary range lies within the file, on UTF-8 character boundaries, covers the same characters as in the ASCII twin of the text (differential, no hand-written expectations), is bracket-balanced when it spans several tokens of a syntactically well-formed text (a construct never cuts through a bracket pair; plus a generated family of erroneous expressions with parenthesised operands), names the right file and place in five two-file programs (interface / function / type declared in an imported file or the prelude), and intersects the mutated site where that is unambiguous.",
           "Secondary labels are only counted; texts on which analysis panics belong to C04.", "DESIGN.md §3 C33"),
  "C34": U("the C04 neighbourhood x EVERY byte offset 0..=len+1 (including offsets inside multi-byte characters) x {errors, definition_at, type_at, completions_at} on check_lsp;",
           "no panic, no abort, no run-away in the analysis or in any query.",
@@ -112,7 +112,7 @@ CHECKS.update({
  "C21": U("all import layouts of three files (7 x 7 import forms x main's own declaration) with positive/negative/clash programs, plus all nests of <= 2 (quick) / 3 (thorough) scopes from block/if/while/for/arm/lambda with every let-before/after pattern, plus the sibling-scope family (a name bound in one arm / branch / block / loop / lambda must not be visible in a later sibling);",
           "a model resolver predicts the chosen declaration (observed by its tag), an unresolved-identifier diagnostic, or a clash diagnostic; an environment-stack model predicts every read in nested scopes.",
           "Bounded file/name counts; importing a name the file lacks, same-scope redeclaration and unaliased fully qualified names are unspecified.", "DESIGN.md §3 C21"),
- "C22": U("33 generic functions (incl. lambdas and tasks that capture values of the generic type, and interface methods passed as function values) x all ordered pairs of 10 (quick) / 21 (thorough) instantiation types satisfying their constraints, plus direct operator / for / index uses on user types and interfaces implemented with their methods written in every other order;",
+ "C22": U("33 generic functions (incl. lambdas and tasks that capture values of the generic type, and interface methods passed as function values) x all ordered pairs of 10 (quick) / 21 (thorough) instantiation types satisfying their constraints, plus direct operator / for / index uses on user types, interfaces implemented with their methods written in every other order, generic functions instantiated at void next to another type, and a three-file program in which two modules declare a type of the same name;",
           "differential: each generic call must produce the same trace (tags emitted by the user implementations + rendered results) as its hand-monomorphised copy, and no tag of a foreign type may appear.",
           "Bounded type list; generics over Iterable cannot be written on this tree; `c[i] += v` through a user Index is an open known finding.", "DESIGN.md §3 C22"),
  "C23": U("2 carriers x (?, !) x success/failure x 4 parameter lists of the enclosing function (1, 3, with a void parameter, with a generic parameter instantiated to void) x 30 syntactic positions (statement, let, operands at pending depth 1-4, call arguments, array/tuple/struct elements, index, conditions, scrutinee, loop bodies, assignments, lambda body) with a trace emit after every statement;",
@@ -130,10 +130,10 @@ CHECKS.update({
           "Rust HashMap/HashSet on every step; get / m[k] of a missing key stops with a panic error.",
           "States merged on (structural event sequence, contents); depth 9 on >= 5-key alphabets not reached.", "DESIGN.md §3 C27", "model_checking",
           "explicit-state BFS over operation histories of core/map and core/set (read from the working tree), every transition executed on the real VM against a HashMap/HashSet model"),
- "C28": U("all values of nested built-in types of depth <= 3 (int/bool/void/string incl. non-ASCII text/array/tuple 2-4/option/result, containers of size 0-2) rendered through `..` on both sides, .str(), ToString.str, print and println;",
+ "C28": U("all values of nested built-in types of depth <= 3 (int incl. MIN and MAX/bool/void/string incl. non-ASCII text/array/tuple 2-4/option/result, containers of size 0-2) rendered through `..` on both sides, .str(), ToString.str, print and println;",
           "model printer from the property statement (decimal ints, true/false, nil, verbatim strings, `[ a, b ]`, `(a, b)`, some(x)/none, ok(x)/err(e)).",
           "Floats not asserted; the empty array's spelling is only required to be consistent.", "DESIGN.md §3 C28"),
- "C30": U("integer literal spellings (boundary grid, every `_` placement, negated, leading zeros, 26 out-of-range spellings), float spellings (all I.F with <= 3/4 digits, round-half families of 17-20 digits, 300-400 digit strings), all strings of length <= 3 (quick) / 4 (thorough) over a 13-character menu in single, double and triple quotes, multi-line layouts (every 1-3 content-line layout slice: indent x line menu x residue x closer);",
+ "C30": U("integer literal spellings (boundary grid, every `_` placement, negated, leading zeros, 26 out-of-range spellings), float spellings (all I.F with <= 3/4 digits, round-half families of 17-20 digits, 300-400 digit strings), all strings of length <= 3 (quick) / 4 (thorough) over a 13-character menu in single, double and triple quotes, every \\xHH escape below 0x80 in every letter-case spelling, multi-line layouts (every 1-3 content-line layout slice: indent x line menu x residue x closer);",
           "ints decimal; floats = correctly rounded binary64 (str::parse cross-checked by an exact-decimal bracket); strings byte-exact through the host; out-of-range literals give a diagnostic.",
           "Multi-line indentation rules are asserted only where the repository's own multiline_string tests pin them; other layouts assert only that no content character is lost.", "DESIGN.md §3 C30"),
  "C31": U("all typed expression trees of depth <= 3 over the 15 binary and 2 prefix operators with variable / literal / negative-literal leaves, printed with minimal parentheses for the documented table and round-tripped through a reference Pratt parser;",
@@ -142,7 +142,7 @@ CHECKS.update({
  "C32": U("call chains of depth <= 2 (quick) / 3 (thorough) over named functions, methods and lambdas spread over three files, five failing operations placed at every statement position, calls with and without arguments, with 0/1/5/40 non-ASCII characters (and 4-byte characters) above the site; plus the statement-layout family (the failing operation on its own line below `let v =` / `v =`, after a comment line, or inside a block initialiser);",
           "error kind, then file:line and function of the failing statement, then the call site of every active call, innermost first (the generator knows every line it emitted).",
           "For `!` on none one leading prelude frame is allowed.", "DESIGN.md §3 C32"),
- "C35": U("all nests of <= 2 (quick) / 3 (thorough) scopes (block, fn, lambda, match arm, for) x 1-2 names x every shadowing pattern, each binding initialised with a distinct constant and each use emitted; definition_at queried at every byte of every use; 82 hover programs; 27 member-name programs (struct fields in patterns / constructor arguments / accesses in every order, enum variants, named function arguments, member functions) with go-to-definition at every byte of every marked use;",
+ "C35": U("all nests of <= 2 (quick) / 3 (thorough) scopes (block, fn, lambda, match arm, for) x 1-2 names x every shadowing pattern, each binding initialised with a distinct constant and each use emitted; definition_at queried at every byte of every use; 82 hover programs; 27 member-name programs (struct fields in patterns / constructor arguments / accesses in every order, enum variants, named function arguments, member functions) with go-to-definition at every byte of every marked use; 7 programs with hover on uses of generic functions (the instantiated type);",
           "behavioural ground truth: the constant the compiled program printed names the binding used; definition_at must return that binding's range and type_at the expected type string.",
           "Hover strings asserted only for forms pinned by the repository's lsp tests.", "DESIGN.md §3 C35"),
  "C36": U("echo functions for every type of depth <= 1 (quick) / 2 (thorough) over int/float/bool/string/void/array/tuples/option/result/#host structs and enums (incl. void fields), 289 two-argument swap functions, value grids of 2-3 boundary values per leaf; the bindings are generated from the working tree and compiled into a scratch crate at check time;",
